@@ -224,6 +224,14 @@ impl<T> RawTable<T> {
     }
 }
 
+#[cfg(feature = "verif")]
+impl<T> RawTable<T> {
+    /// Raw status word of every slot, plus the `len` and `free` counters.
+    pub fn debug_slots(&self) -> (Vec<u64>, usize, usize) {
+        (self.data.iter().map(|s| s.status).collect(), self.len, self.free)
+    }
+}
+
 pub struct Iter<'a, T> {
     iter: std::slice::Iter<'a, Slot<T>>,
     len: usize,
